@@ -469,9 +469,14 @@ class JSRegExp(JSObject):
 
     def __init__(self, pattern: str, flags: str = "", poll_callback=None):
         super().__init__()
-        from .regex import RegExp as InternalRegExp, MatchResult
+        from .regex import RegExp as InternalRegExp, MatchResult, RegExpError
+        from .errors import JSSyntaxError
 
-        self._internal = InternalRegExp(pattern, flags, poll_callback)
+        try:
+            self._internal = InternalRegExp(pattern, flags, poll_callback)
+        except RegExpError as e:
+            # An invalid pattern or flag is a SyntaxError scripts can catch
+            raise JSSyntaxError(f"Invalid regular expression: /{pattern}/{flags}: {e}")
         self._pattern = pattern
         self._flags = flags
 
@@ -495,6 +500,17 @@ class JSRegExp(JSObject):
         self.set("lastIndex", value)
         self._internal.lastIndex = value
 
+    @staticmethod
+    def _run(matcher, string: str):
+        """Run the matcher; exhausting its backtracking stack is a script error."""
+        from .regex.vm import RegexStackOverflow
+        from .errors import JSRangeError
+
+        try:
+            return matcher(string)
+        except RegexStackOverflow:
+            raise JSRangeError("Regular expression too complex: backtracking stack exhausted")
+
     def _start_index(self) -> int:
         """ToLength(lastIndex): the position a global/sticky match starts from."""
         return max(0, to_integer(self.get("lastIndex")))
@@ -502,7 +518,7 @@ class JSRegExp(JSObject):
     def test(self, string: str) -> bool:
         """Test if the pattern matches the string."""
         self._internal.lastIndex = self._start_index()
-        result = self._internal.test(string)
+        result = self._run(self._internal.test, string)
         if "g" in self._flags or "y" in self._flags:
             self.lastIndex = self._internal.lastIndex
         return result
@@ -510,7 +526,7 @@ class JSRegExp(JSObject):
     def exec(self, string: str):
         """Execute a search for a match."""
         self._internal.lastIndex = self._start_index()
-        result = self._internal.exec(string)
+        result = self._run(self._internal.exec, string)
         if "g" in self._flags or "y" in self._flags:
             self.lastIndex = self._internal.lastIndex
 
